@@ -304,6 +304,11 @@ func (db *DB) loadIndexFromHintFile() (uint32, error) {
 	if err != nil {
 		return 0, err
 	}
+	// hint 文件仅在加载索引时使用, 加载完成后必须关闭
+	// 否则文件描述符泄漏, 且内存映射 IO 下该文件将一直保持 512MB 的预分配大小
+	defer func() {
+		_ = hintFile.Close()
+	}()
 
 	// 实际读取到的最大数据文件 id
 	// 避免 hint 文件被删除导致无法加载的情况
